@@ -135,6 +135,17 @@ def run_case(case):
             mismatch('a', 'analysis_' + name, 'DWTForward with (col=%s,row=%s) differs from '
                      'pywt.wavedec2 per-axis: %s' % (wc, wr, core.first_mismatch(got, want, tol)))
         if name == 'dense':
+            # the same values behind another memory layout (a transposed view) must give the same coefficients
+            tv = torch.tensor(np.ascontiguousarray(np.swapaxes(inp, -1, -2))).transpose(-1, -2)
+            ok, ov = lib(fwd, tv)
+            if not ok:
+                r.fail(ov.bucket, 'forward raised on a transposed-view input: %s' % ov)
+            else:
+                okv = all(tuple(a_.shape) == tuple(b_.shape) for a_, b_ in zip([ov[0]] + list(ov[1]), [yl] + list(yh)))
+                gotv = dwtu.flat1(dwtu.to_np(ov[0]), [dwtu.to_np(h) for h in ov[1]]) if okv else None
+                if not okv or not core.close(gotv, got, 1e-12 * max(g * core.maxabs(inp), 1e-300))[0]:
+                    r.fail('strided_input:%s' % mode, 'a transposed-view input gives other coefficients than its contiguous copy '
+                           '(col=%s,row=%s)' % (wc, wr))
             # transposition relation with the swapped 4-tuple
             ok, o2 = lib(fwd_sw, torch.tensor(np.ascontiguousarray(np.swapaxes(inp, -1, -2))))
             if not ok:
